@@ -63,10 +63,18 @@ func init() {
 				sameSid = vs.Choose("samesid", 2) == 1
 				secondNAT = []string{NATUnrestricted, NATRestricted}[vs.Choose("nat2", 2)]
 			}
+			// NAT types the proxies and the clients report (cfg "nats": how many of the four kinds, default 1)
+			natKinds := []string{NATUnrestricted, NATRestricted, NATUnknown, ""}
+			nNat := cfgInt(x, "nats", 1)
+			firstNAT, clientNAT := NATUnrestricted, "unknown"
+			if nNat > 1 {
+				firstNAT = natKinds[vs.Choose("pnat", nNat)]
+				clientNAT = []string{"unknown", "unrestricted", "restricted"}[vs.Choose("cnat", 3)]
+			}
 			w := newWorld()
 			x.User = w
 			for i, p := range pcs {
-				nat := NATUnrestricted
+				nat := firstNAT
 				if i == 1 {
 					nat = secondNAT
 				}
@@ -76,7 +84,7 @@ func init() {
 				}
 			}
 			for _, a := range carr {
-				w.addClient("unknown", "", a, viaIPC)
+				w.addClient(clientNAT, "", a, viaIPC)
 			}
 			var sb strings.Builder
 			for _, p := range w.proxies {
